@@ -221,3 +221,41 @@ pub fn selftest() -> Result<(), String> {
     }
     Ok(())
 }
+
+/// Touch every lazily initialised process-global of the code under test once, on a thread that
+/// is *not* a simulated process. `RandomState::new()` advances a per-thread counter, so a lazy
+/// static that builds a `HashMap`/`Regex` on first use inside a simulated process would shift that
+/// process's hash keys depending on the history of the *host* process: replay would not be a pure
+/// function of the scenario (found with seeded change C15-r2-1: the minimised scenario failed in
+/// the long-running parent and passed in the fresh replay process).
+pub fn warmup() {
+    use cfgrammar::yacc::{YaccGrammar, YaccKind, YaccOriginalActionKind};
+    let h = std::thread::spawn(|| {
+        let g = "%grmtools{yacckind: Grmtools}\n%start A\n%token X\n%left 'a'\n%epp X \"x\"\n%avoid_insert X\n%expect 0\n%expect-rr 0\n%parse-param p: u64\n%%\nA -> u64: A 'a' { 0 } | X { 1 } | { 2 };\n%%\nfn f() {}\n";
+        for k in [
+            YaccKind::Grmtools,
+            YaccKind::Original(YaccOriginalActionKind::GenericParseTree),
+            YaccKind::Original(YaccOriginalActionKind::NoAction),
+            YaccKind::Original(YaccOriginalActionKind::UserAction),
+            YaccKind::Eco,
+        ] {
+            for src in [g, "%start A\n%actiontype u64\n%implicit_tokens W V\n%%\nA: 'a' A { 0 } | ;\n", "%start A\n%%\nA: 'a' A | 'b' %prec 'a';\n", "%%%"] {
+                if let Ok(grm) = YaccGrammar::<u16>::new_with_storaget(k, src) {
+                    let _ = lrtable::from_yacc(&grm, lrtable::Minimiser::Pager);
+                    let _ = grm.firsts();
+                    let _ = grm.follows();
+                }
+            }
+        }
+        use lrlex::LexerDef;
+        let _ = lrlex::LRNonStreamingLexerDef::<lrlex::DefaultLexerTypes<u32>>::from_str("%%\n[0-9]+ \"INT\"\n[ \\t\\n]+ ;\n").map(|d| {
+            let l = d.lexer("1 2");
+            use lrpar::Lexer;
+            let _ = l.iter().count();
+        });
+        let _ = lrlex::LRNonStreamingLexerDef::<lrlex::DefaultLexerTypes<u32>>::from_str("%grmtools{lexerkind: X}\n%%%\n[");
+        let mut c = cfgrammar::newlinecache::NewlineCache::new();
+        c.feed("a\nb");
+    });
+    let _ = h.join();
+}
